@@ -511,8 +511,8 @@ func c21Driver(p *genPkg) string {
 
 // typesStr: ((fields per range type) (categories) injected-type-id)
 //   field = ((expanded selector ids) fetchAfter required list assert) ; assert: 0 struct wrap, 1+k category k, -1 base interface
-//   category = ((type ids) nil-implements)
-func c21TypesStr(t *syntax.Types, injName string) string {
+//   category = ((type ids) nil-implements) ; NilNode implements every category but the synthetic TokenSet
+func c21TypesStr(t *syntax.Types, injName string, declared []string) string {
 	ids := c21TypeIDs(t)
 	rts := make([]string, len(t.RangeTypes))
 	for i, rt := range t.RangeTypes {
@@ -533,7 +533,14 @@ func c21TypesStr(t *syntax.Types, injName string) string {
 	}
 	cs := make([]string, len(t.Categories))
 	for i, c := range t.Categories {
-		cs[i] = sx.List(sx.Ints(c21Expand(t, []string{c.Name})), sx.Bool(c.Name != "TokenSet"))
+		// NilNode implements every category except the synthetic TokenSet (the one the grammar did not declare)
+		nilImplements := c.Name != "TokenSet"
+		for _, d := range declared {
+			if d == c.Name {
+				nilImplements = true
+			}
+		}
+		cs[i] = sx.List(sx.Ints(c21Expand(t, []string{c.Name})), sx.Bool(nilImplements))
 	}
 	return sx.List(sx.List(rts...), sx.List(cs...), sx.Int(ids[injName]))
 }
@@ -718,7 +725,7 @@ func c21Random(rng *rand.Rand, n int, args []string) {
 			ones[j] = 1
 		}
 		// textmapper accepted the grammar: it claims the inferred fields fit every tree
-		sx.Case("c21.types", sx.List(c21TypesStr(t, grams[i].injName), grams[i].bodiesStr(t)), sx.Ints(ones))
+		sx.Case("c21.types", sx.List(c21TypesStr(t, grams[i].injName, grams[i].cats), grams[i].bodiesStr(t)), sx.Ints(ones))
 	}
 	for i, pd := range pend {
 		if answers[i] == "nobuild" {
@@ -734,7 +741,7 @@ func c21Random(rng *rand.Rand, n int, args []string) {
 			noRoot++
 			continue
 		}
-		sx.Case("c21.run", sx.List(c21TypesStr(p.g.Parser.Types, grams[pd.pkg].injName), sx.Str(pd.text)), answers[i])
+		sx.Case("c21.run", sx.List(c21TypesStr(p.g.Parser.Types, grams[pd.pkg].injName, grams[pd.pkg].cats), sx.Str(pd.text)), answers[i])
 	}
 	sx.Stat("grammars_tried", tried)
 	sx.Stat("grammars_rejected", rejected)
